@@ -58,7 +58,7 @@ CHECKS = {
     "SMOKE": {"runs": [{"entry": M + ".HarnessL1Smoke", "pkgs": CORE, "must_reach": ["smoke-end"]}]},
     "C01": {
         "claim": {
-            "text": "bounded model checking of the real Config/compose/overlay/deep-copy/Pointerify code over a corpus of 8 config struct types plus a generated family (every struct of <=2, thorough 3, fields over an 18-kind alphabet in every order, built with reflect.StructOf and stacked through the real compose): every set/unset pattern of every leaf in 1-2 (thorough 3) layers is explored and every leaf value is symbolic, so the solver proves 'last source that set it wins, else default' against an independent reference model for all values",
+            "text": "bounded model checking of the real Config/compose/overlay/deep-copy/Pointerify code over a corpus of 8 config struct types plus a generated family (every struct of <=2, thorough 3, fields over a 19-kind alphabet in every order, built with reflect.StructOf and stacked through the real compose): every set/unset pattern of every leaf in 1-2 (thorough 3) layers is explored and every leaf value is symbolic, so the solver proves 'last source that set it wins, else default' against an independent reference model for all values",
             "note": "types are a hand-written corpus (enumerated, not solved); layers are built by field name through the pointerified type like decoders do; reflect is a model validated natively on sampled paths; interface-typed config fields are outside",
             "design_ref": "DESIGN.md §4 C01",
         },
@@ -67,8 +67,8 @@ CHECKS = {
                  seq("HarnessC01T7", ["c01-end"]), seq("HarnessC01T8", ["c01-end"], ["quick"]), seq("HarnessC01T8L2", ["c01-end"], ["thorough"]), seq("HarnessC01T9", ["c01-end"]), seq("HarnessC01T10", ["c01-end"]), conc("HarnessC02History2", ["c02-hist-end"]), conc("HarnessC05Seq", ["c05-end"]), conc("HarnessC04Aliasing", ["c04-aliasing-end"]), seq("HarnessC01Gen2", ["c01-gen-end"]),
                  seq("HarnessC01Gen2L2", ["c01-gen-end"], ["thorough"], maxpaths=2000000, timeout="3000s"), seq("HarnessC01Gen3", ["c01-gen-end"], ["thorough"], maxpaths=3000000, timeout="3000s"), seq("HarnessC01T3", ["c01-end"], ["thorough"]), seq("HarnessC01T4", ["c01-end"], ["thorough"]),
                  seq("HarnessC01T2L3", ["c01-end"], ["thorough"]), seq("HarnessC01T7L3", ["c01-end"], ["thorough"])],
-        "bounds": {"quick": "8 types (scalars/durations, skipped fields in every position, nested+pointer+embedded structs, slices/maps/arrays, user pointers incl. two leaves aliasing one variable in the defaults, text-unmarshalable value+pointer, deep nesting, pointer-bearing arrays in slices / struct map keys holding pointers / pointer to an all-nilable struct); 2 layers (1 for the two biggest types); slices len<=2, maps <=1 entry; all scalar values; generated family: all 18+324 types of 1-2 fields over {int8,string,[]int16,map,*int,struct,*struct,[2]uint8,dials:\"-\",chan,func,text-unmarshalable,*all-nilable struct,[][1]*struct,map[struct-with-pointer]int8,map of maps,text-unmarshalable with reference fields,unmanaged map}, 1 layer",
-                   "thorough": "same corpus, 2 layers everywhere, 3 layers on the small types; generated family: all 5832 three-field types (1 layer), all 324 two-field types (2 layers)"},
+        "bounds": {"quick": "8 types (scalars/durations, skipped fields in every position, nested+pointer+embedded structs, slices/maps/arrays, user pointers incl. two leaves aliasing one variable in the defaults, text-unmarshalable value+pointer, deep nesting, pointer-bearing arrays in slices / struct map keys holding pointers / pointer to an all-nilable struct); 2 layers (1 for the two biggest types); slices len<=2, maps <=1 entry; all scalar values; generated family: all 19+361 types of 1-2 fields over {int8,string,[]int16,map,*int,struct,*struct,[2]uint8,dials:\"-\",chan,func,text-unmarshalable,*all-nilable struct,[][1]*struct,map[struct-with-pointer]int8,map of maps,text-unmarshalable with reference fields,unmanaged map,*chan}, 1 layer",
+                   "thorough": "same corpus, 2 layers everywhere, 3 layers on the small types; generated family: all 6859 three-field types (1 layer), all 361 two-field types (2 layers)"},
         "outside": "other struct types; more layers; longer slices/maps; interface-typed fields; floats/complex are drawn from 2-3 concrete values",
         "assumptions": REFLECT_ASSUME,
     },
